@@ -17,7 +17,7 @@ RULE = ('named crystal pool (Bravais and multi-site, 2-D and 3-D, with and witho
         '{0.3,0.7,1.5}; non-trivial = every case (a solute is present); distinct = (crystal, Nthermo, mask, sigma, input index)')
 ASSUMPTIONS = ['(a) algebraic tolerance 1e-9 x max|L0vv|; the torus is large enough that kinetic states and their one-jump '
                'neighbours stay distinct (Torus.needed_L)',
-               '(b) finite-size extrapolation a/L^d + b/L^(d+2) from three torus sizes; tolerance 3e-3 x scale (observed up to 1.6e-3 for strong binding, where the finite-size series converges slowly)',
+               '(b) finite-size extrapolation a/L^d + b/L^(d+2) from three torus sizes; tolerance 3e-3 x scale; a quantity is compared only when the three-point value agrees with the leading-order value of the two largest tori within 1e-3 x scale (otherwise counted e2e_extrapolation_unresolved: strong binding makes the finite-size series converge slowly), and a mismatch at the default k-point density is re-decided with the densest mesh (e2e_mesh_escalations)',
                '(c) tolerance 1e-8 x scale',
                'energies |beta F| <= ~6; the classification of omega1/omega2/thermodynamic states read from the calculator is '
                'checked separately (C24-C26)']
@@ -123,7 +123,25 @@ def run_case(case):
             A = np.array([[1., LL ** -dpow, LL ** -(dpow + 2)] for LL in sizes])
             coef = np.linalg.inv(A)[0]
             ext = [sum(cf * r[q] for cf, r in zip(coef, res)) for q in range(4)]
-            for nm, a, b in zip(('L0vv', 'Lss', 'Lsv', 'L1vv'), Lr, ext):
-                mon.close(a, b, 3e-3, 'C01:e2e:' + nm, det(nm + ' real vs extrapolated chain L=%s' % sizes, a, b), tags,
-                          scale=max(sc, np.abs(b).max()))
+            # internal error estimate of the extrapolation: three-point value against the leading-order value of the two largest tori
+            A2 = np.array([[1., LL ** -dpow] for LL in sizes[1:]])
+            coef2 = np.linalg.inv(A2)[0]
+            ext2 = [sum(cf * r[q] for cf, r in zip(coef2, res[1:])) for q in range(4)]
+            Lfine = None
+            for nm, a, b, b2 in zip(('L0vv', 'Lss', 'Lsv', 'L1vv'), Lr, ext, ext2):
+                sce = max(sc, np.abs(b).max())
+                est = float(np.abs(np.asarray(b) - np.asarray(b2)).max())
+                if est > 1e-3 * sce:
+                    # finite-size series not converged at these sizes (strong binding): the reference is not decisive for this quantity
+                    mon.count('e2e_extrapolation_unresolved:' + nm)
+                    continue
+                if float(np.abs(np.asarray(a) - np.asarray(b)).max()) > 3e-3 * sce:
+                    # Brillouin-zone integration accuracy of the real Green function: repeat with the densest mesh before deciding
+                    if Lfine is None:
+                        dfine = work_vac.get_calc(name, nth, NGFmax=12)
+                        Lfine = [np.array(x) for x in dfine.Lij(*args)]
+                        dfine.clearcache()
+                        mon.count('e2e_mesh_escalations')
+                    a = Lfine[('L0vv', 'Lss', 'Lsv', 'L1vv').index(nm)]
+                mon.close(a, b, 3e-3, 'C01:e2e:' + nm, det(nm + ' real vs extrapolated chain L=%s' % sizes, a, b), tags, scale=sce)
     return mon.result(sample=sample)
